@@ -132,6 +132,6 @@ From AltProofs Require Import SpeedPointsP PathGeomP WholeSplitP TimedTraceP.
    nor the train's parameters ever change - across all path extensions ---- *)
 Theorem C12_dispatched_train : forall fuel_bp fuel_steps (net : list LinkR) (tp : TPR) tl rp fmax fb st cache (con : ConsistR) x',
   sl_timed_walk fuel_bp fuel_steps net tp tl rp fmax fb st cache con = Ok x' ->
-  tw_trace fmax kin_step ({| sl_st := st; sl_cache := cache; sl_fb := fb; sl_idx := 0 |}, con) x' /\
+  tw_trace fmax any_pts kin_step ({| sl_st := st; sl_cache := cache; sl_fb := fb; sl_idx := 0 |}, con) x' /\
   k_dt (ts_k (sl_st (fst x'))) = k_dt (ts_k st) /\ ts_p (sl_st (fst x')) = ts_p st.
 Proof. exact sl_timed_walk_kin. Qed.
